@@ -160,6 +160,8 @@ void EPLS(matrix *mx, matrix *my, size_t nlv, size_t xautoscaling, size_t yautos
        initMatrix(&x_subspace);
     }
 
+     /* Seed the generator from the inputs: the feature shuffle below draws before any other seeding */
+     srand_(srand_init);
      /* Create a random id vector */
      for(it = 0; it < eparm.n_models; it++){
        /* Sattolo's algorithm to shuffle the featureids*/
